@@ -322,7 +322,7 @@ def check(prop, tier, seed, nworkers, scale):
         "property_id": prop,
         "tier": tier,
         "seed": seed,
-        "level": "exploration",
+        "level": LEVEL[prop],
         "coverage": {
             "evaluations": runs,
             "distinct_nontrivial": len(hashes),
@@ -359,6 +359,8 @@ def check(prop, tier, seed, nworkers, scale):
         % (prop, tier, runs, ticks, len(hashes), len(states), new_violations, sum(n for _, n in known_hits.values()), wall))
     return exit_code
 
+
+LEVEL = {"C05": "fault_enumeration", "C06": "exploration", "C07": "exploration", "C08": "exploration"}
 
 RULES = {
     "C08": "run i: swarm configuration + script of 3-60 actions over 1-8 parties (clones sharing copy-on-write pages) drawn from run_seed(i); every 4th run is fault-free (one party, no fork/drop). Non-trivial = at least one store took effect and at least one load/sweep was compared with the byte model; distinct = distinct 64-bit hash of the run's event log (every action index, kind and observed value).",
